@@ -12,8 +12,8 @@ META = {
         'R1 ordered iteration: in the serialiser (Serializable and every _asdict/_as_markdown/host_key_asdict override) an '
         'iteration over a value that may be a set/frozenset (a branch guarded by isinstance(.., (.., set, frozenset, ..)), or an '
         'attribute that the parser fills with parse_numeric_flags) must go through sorted(); plain dict iteration must go '
-        'through sorted keys. R2: class level serialiser state that is swapped during rendering is restored in a finally '
-        '(effect analysis shared with C13). R3 total dispatch: _json_result/_json_traverse/_markdown_result end in an '
+        'through sorted keys. R2: no serialiser function (all of Serializable, the text encoders, every _asdict/_as_markdown/'
+        'as_json/as_markdown/__str__ override) stores to an attribute of a class object or declares a global. R3 total dispatch: _json_result/_json_traverse/_markdown_result end in an '
         'unconditional default branch, the JSONEncoder.default hook is installed at import time and dictionary keys are '
         'mapped to str/number on every branch. R4: every _asdict override returns a value on every path.'),
     'assumptions': ['json.dumps calls JSONEncoder.default for objects it cannot serialise natively'],
@@ -55,10 +55,59 @@ def iterations_over(stmts, var):
     return out
 
 
+def class_state_stores(f, model):
+    """stores (assign / augmented assign / delete / setattr / delattr) whose target is an attribute of a class object:
+    ``cls.x``, ``type(self).x``, ``self.__class__.x``, ``<RepoClass>.x``; and global / nonlocal declarations"""
+    out = []
+    first = f.node.args.args[0].arg if f.node.args.args else None
+    is_cls = first == 'cls' or any(isinstance(d, ast.Name) and d.id == 'classmethod' for d in f.node.decorator_list)
+
+    def class_expr(e):
+        if isinstance(e, ast.Name):
+            if is_cls and e.id == first:
+                return True
+            r = model.resolve_name(f.module, e.id)
+            return isinstance(r, ClassInfo)
+        if isinstance(e, ast.Call) and isinstance(e.func, ast.Name) and e.func.id == 'type' and len(e.args) == 1:
+            return True
+        if isinstance(e, ast.Attribute) and e.attr == '__class__':
+            return True
+        return False
+
+    def target(t):
+        if isinstance(t, (ast.Tuple, ast.List)):
+            for x in t.elts:
+                target(x)
+        elif isinstance(t, ast.Starred):
+            target(t.value)
+        elif isinstance(t, ast.Attribute) and class_expr(t.value):
+            out.append((ast.unparse(t), t))
+        elif isinstance(t, ast.Subscript):
+            b = t.value
+            while isinstance(b, ast.Subscript):
+                b = b.value
+            if isinstance(b, ast.Attribute) and class_expr(b.value):
+                out.append((ast.unparse(t), t))
+    for n in ast.walk(f.node):
+        if isinstance(n, ast.Assign):
+            for t in n.targets:
+                target(t)
+        elif isinstance(n, (ast.AugAssign, ast.AnnAssign)):
+            target(n.target)
+        elif isinstance(n, ast.Delete):
+            for t in n.targets:
+                target(t)
+        elif isinstance(n, (ast.Global, ast.Nonlocal)):
+            out.append(('global ' + ','.join(n.names), n))
+        elif isinstance(n, ast.Call) and isinstance(n.func, ast.Name) and n.func.id in ('setattr', 'delattr') and n.args and class_expr(n.args[0]):
+            out.append((ast.unparse(n), n))
+    return out
+
+
 def check(ctx, report):
     model = ctx.model
     report.rule('C14.R1', 'no iteration over a possibly set typed value without sorted()')
-    report.rule('C14.R2', 'class level serialiser state restored on all paths')
+    report.rule('C14.R2', 'no serialiser function stores to class level or module level state')
     report.rule('C14.R3', 'total dispatch; encoder hook installed; keys mapped')
     report.rule('C14.R4', '_asdict overrides return on every path')
     ser = model.cls('Serializable')
@@ -124,20 +173,24 @@ def check(ctx, report):
                 for it, is_sorted in iterations_over(f.node.body, 'self.' + a):
                     if not is_sorted:
                         report.add('C14.R1', '%s@iterate[self.%s]' % (f.construct, a), 'flag set iterated in hash order')
-    # ---- R2 (shared with C13.R1): class level stores in serialiser functions restored in a finally
-    from .c13 import restored_in_finally, rooted
-    it = ctx.interp
-    for name in ('_markdown_human_readable_names', '_markdown_result_complex', '_markdown_result', '_json_traverse', '_as_markdown', 'as_json'):
-        f = ser.methods.get(name)
-        if f is None:
-            continue
+    # ---- R2: no serialiser function writes class level or module level state (save/swap/restore of a class attribute
+    # pins the attribute on the subclass and is not re-entrant: rendering must be a pure function of the object and of
+    # the encoder the user installed)
+    ser_funcs = []
+    for c in model.repo_classes():
+        for name, f in c.methods.items():
+            if f.abstract:
+                continue
+            if c is ser or c.name.startswith('SerializableTextEncoder') or name in (
+                    '_asdict', '_as_markdown', 'as_json', 'as_markdown', 'host_key_asdict', '__str__', '__repr__'):
+                ser_funcs.append((c, f))
+    for c, f in ser_funcs:
         report.count('C14.R2')
-        res = it.run(ser, name, side='compose')
-        for e in walk(res.block):
-            if isinstance(e, Effect) and rooted(e.target) == 'class' and e.what == 'setattr' and not restored_in_finally(e, res.block):
-                site = e.func.construct if e.func is not None else f.construct
-                report.add('C14.R2', '%s@setattr[cls.%s]' % (site, e.args[0]),
-                           'class level serialiser state is swapped and not restored in a finally: one failing object changes how later objects are rendered')
+        report.touch(f)
+        for what, node in class_state_stores(f, model):
+            report.add('C14.R2', '%s@store[%s]' % (f.construct, what),
+                       'serialiser function writes shared (class or module level) state %s: the rendering of later objects depends on '
+                       'what was serialised before' % what)
     # ---- R3
     for name in ('_json_result', '_json_traverse', '_markdown_result'):
         f = ser.methods.get(name)
@@ -166,6 +219,15 @@ def check(ctx, report):
         ok = any('key.name' in ast.unparse(n) and '_json_result(key)' in ast.unparse(n) for n in dcs)
         if not ok:
             report.add('C14.R3', jt.construct + '@keys', 'dictionary keys are not mapped through key.name / _json_result on every branch')
+    # ---- R3b: a time delta is rendered whole (``.seconds`` alone drops the days, ``.days`` alone drops the rest)
+    for c, f in ser_funcs:
+        reads = {n.attr for n in ast.walk(f.node) if isinstance(n, ast.Attribute) and n.attr in ('seconds', 'days', 'microseconds')
+                 and not (isinstance(n.value, ast.Name) and n.value.id in ('datetime', 'self', 'cls'))}
+        if reads:
+            report.count('C14.R3')
+            if 'seconds' in reads and 'days' not in reads or reads == {'days'}:
+                report.add('C14.R3', f.construct + '@timedelta[%s]' % ','.join(sorted(reads)),
+                           'a time delta is rendered from .%s only: the other components are dropped (use total_seconds())' % ','.join(sorted(reads)))
     # ---- R4
     for c in model.repo_classes():
         f = c.methods.get('_asdict')
